@@ -7,9 +7,13 @@
 (*   out      what the program printed: kept (input allele numbers of REF and *)
 (*            the ALTs in output order), extra_alt, refmasked, filters,       *)
 (*            afprior (thousandths, -1 "."), gts (-1 "."), afp, gp            *)
+(*   exact    FALSE: c is an AlleleFilterOps instance (integers in a common    *)
+(*            unit); TRUE: c is an AlleleFilterExact instance (every number   *)
+(*            [m |-> BigNat digits, s |-> decimals], as the text spells it)   *)
 (* TLC evaluates the declarative definitions on c and names the first clause  *)
-(* the printed record contradicts.                                            *)
-EXTENDS AlleleFilterOps, Genotypes, TLC, Json, IOUtils
+(* the printed record contradicts.  Weights and their sum are BigNat in both  *)
+(* cases (AFPRIOR is compared in exact arithmetic).                           *)
+EXTENDS AlleleFilterExact, Genotypes, Json, IOUtils
 
 Trace == JsonDeserialize(IOEnv.TRACE_FILE)
 
@@ -17,24 +21,36 @@ VARIABLES l, bad
 vars == <<l, bad>>
 
 Abs(x) == IF x < 0 THEN -x ELSE x
-NearMilli(out, num, den) == out >= 0 /\ 2 * Abs(out * den - 1000 * num) <= den
+(* |out/1000 - num/den| <= 1/2000 with BigNat num, den                      *)
+NearMilli(out, num, den) ==
+  /\ out >= 0
+  /\ LET a == BnMulSmall(den, out)
+         b == BnMulSmall(num, 1000)
+         diff == IF BnCmp(a, b) >= 0 THEN BnSub(a, b) ELSE BnSub(b, a)
+     IN  BnLeq(BnMulSmall(diff, 2), den)
+(* what the model expects of the record, from either form of instance       *)
+ExpectOf(e) ==
+  IF e.exact THEN XExpect(e.c)
+  ELSE LET u == Expect(e.c)
+       IN  [kept |-> u.kept, masked |-> u.masked, w |-> [j \in DOMAIN u.w |-> BnFromNat(u.w[j])],
+            den |-> BnFromNat(u.den), usable |-> u.usable, outcome |-> u.outcome]
 Rng(s) == {s[i] : i \in DOMAIN s}
 
 Verdict(e) ==
-  LET c  == e.c
-      o  == e.out
-      k  == KeptIdx(c)
-      w  == KeptW(c)
-      d  == Den(c)
-      us == Usable(c)
+  LET o  == e.out
+      x  == ExpectOf(e)
+      k  == x.kept
+      w  == x.w
+      d  == x.den
+      us == x.usable
       invalid == us = {}
       flagged == Rng(o.filters) \cap {"NOA", "AF0"} # {}
   IN
   IF e.crashed THEN "RunAborted"
   ELSE IF e.missing THEN "RecordEmitted"
   ELSE IF o.extra_alt \/ o.kept # k THEN "AltRemovedIffFails"
-  ELSE IF o.refmasked # Masked(c) THEN "RefKeptButMasked"
-  ELSE IF (IF d = 0 THEN \E j \in DOMAIN o.afprior : o.afprior[j] > 0
+  ELSE IF o.refmasked # x.masked THEN "RefKeptButMasked"
+  ELSE IF (IF d = <<>> THEN \E j \in DOMAIN o.afprior : o.afprior[j] > 0
            ELSE Len(o.afprior) # Len(k) \/ \E j \in 1..Len(k) : ~NearMilli(o.afprior[j], w[j], d)) THEN "AFPRIOR"
   ELSE IF invalid /\ ~flagged THEN "InvalidScenarioFiltered"
   ELSE IF invalid /\ (\E s \in DOMAIN o.gts : \E j \in DOMAIN o.gts[s] : o.gts[s][j] >= 0) THEN "InvalidScenarioMissingCalls"
